@@ -449,4 +449,170 @@ def clientViewL {α : Type} [Inhabited α] (limit : Nat) (fixed : Bool) : List (
       | .err e =>
         if e.isEmpty then let (ms, e') := clientViewL limit fixed rest; (default :: ms, e') else ([], some e)
 
+/-! ### Every request: what the handlers do BEFORE the runner is started (round 7)
+
+    In the order of the code (`GenerateHandler`, `ChatHandler`, `scheduleRunner`, `handleScheduleError`):
+    1. `prompt == ""` / no messages together with `keep_alive: 0` → the model is expired and ONE body
+       `{done: true, done_reason: "unload"}` is written (status 200) — the scheduler is not asked for a runner;
+    2. generate: `raw` together with `context` → 400;
+    3. chat: tools requested from a model whose template has no tool support → `scheduleRunner`'s capability
+       check fails → 400 `<canonical name> does not support tools`;
+    4. the scheduler returns an error instead of a runner → `handleScheduleError` picks the status from the
+       class of the error and rewrites the text of two classes;
+    5. `prompt == ""` / no messages → ONE body `{done: true, done_reason: "load"}` (status 200);
+    6. generate: `Detokenize(context)` fails → 500; chat: `Tokenize` inside `chatPrompt` fails → 500;
+    7. the runner is started (`Completion`): everything modelled above.
+    Whether the request asked for a stream plays no role in 1–6: one JSON body is written either way. -/
+
+/-- what `handleScheduleError` distinguishes (`errors.Is`) in the error `scheduleRunner` returned -/
+inductive SchedErr where
+  /-- `errCapabilities` / `errRequired`: 400, `err.Error()` -/
+  | capabilities
+  /-- `context.Canceled`: 499, `request canceled` -/
+  | canceled
+  /-- `ErrMaxQueue`: 503, `err.Error()` -/
+  | maxQueue
+  /-- `os.ErrNotExist`: 404, `model "<name>" not found, try pulling it first` -/
+  | notExist
+  /-- anything else: 500, `err.Error()` -/
+  | other
+deriving DecidableEq, Repr
+
+def schedStatus : SchedErr → Nat
+  | .capabilities => 400
+  | .canceled => 499
+  | .maxQueue => 503
+  | .notExist => 404
+  | .other => 500
+
+/-- `request canceled` -/
+def sCanceled : Bytes := [114, 101, 113, 117, 101, 115, 116, 32, 99, 97, 110, 99, 101, 108, 101, 100]
+/-- `model "` -/
+def sNotFound1 : Bytes := [109, 111, 100, 101, 108, 32, 34]
+/-- `" not found, try pulling it first` -/
+def sNotFound2 : Bytes := [34, 32, 110, 111, 116, 32, 102, 111, 117, 110, 100, 44, 32, 116, 114, 121, 32, 112, 117, 108, 108, 105, 110, 103, 32, 105, 116, 32, 102, 105, 114, 115, 116]
+/-- `load` -/
+def sLoad : Bytes := [108, 111, 97, 100]
+/-- `unload` -/
+def sUnload : Bytes := [117, 110, 108, 111, 97, 100]
+/-- `raw mode does not support template, system, or context` -/
+def sRawCtx : Bytes := [114, 97, 119, 32, 109, 111, 100, 101, 32, 100, 111, 101, 115, 32, 110, 111, 116, 32, 115, 117, 112, 112, 111, 114, 116, 32, 116, 101, 109, 112, 108, 97, 116, 101, 44, 32, 115, 121, 115, 116, 101, 109, 44, 32, 111, 114, 32, 99, 111, 110, 116, 101, 120, 116]
+/-- ` does not support tools` -/
+def sNoTools : Bytes := [32, 100, 111, 101, 115, 32, 110, 111, 116, 32, 115, 117, 112, 112, 111, 114, 116, 32, 116, 111, 111, 108, 115]
+
+/-- the text `handleScheduleError` writes; `name` = the model name as the request spelled it (`%q` of a
+    name without characters that need escaping), `m` = `err.Error()` -/
+def schedMsg (k : SchedErr) (name m : Bytes) : Bytes :=
+  match k with
+  | .canceled => sCanceled
+  | .notExist => sNotFound1 ++ name ++ sNotFound2
+  | _ => m
+
+/-- the request, as far as steps 1–6 look at it -/
+structure ReqShape where
+  /-- generate: `prompt == ""`; chat: `len(messages) == 0` -/
+  empty : Bool
+  /-- `keep_alive` present and 0 seconds -/
+  keepAlive0 : Bool
+  /-- chat: tools requested and the model's template cannot render them -/
+  noToolSupport : Bool
+  /-- the model name as spelled in the request -/
+  name : Bytes
+  /-- its canonical form (`model.ParseName(..).String()`, computed by the real function: an input) -/
+  full : Bytes
+  /-- class of the scheduler's error when the fault is `load` -/
+  cls : SchedErr
+deriving DecidableEq, Repr
+
+/-- a request the modelled part of the generators never varied before round 7: non-empty, keep_alive
+    absent, tools supported, scheduler errors of the unclassified kind -/
+def ReqShape.plain (q : ReqShape) : Prop := q.empty = false ∧ q.noToolSupport = false ∧ q.cls = .other
+
+/-- outcome of steps 1–6 -/
+inductive Pre where
+  | go
+  | fail (status : Nat) (msg : Bytes)
+  | early (reason : Bytes)
+deriving DecidableEq, Repr
+
+def genPreH (q : ReqShape) (raw hasCtx : Bool) (f : Fault) : Pre :=
+  if q.empty && q.keepAlive0 then .early sUnload
+  else if raw && hasCtx then .fail 400 sRawCtx
+  else match f with
+    | .load m => .fail (schedStatus q.cls) (schedMsg q.cls q.name m)
+    | _ =>
+      if q.empty then .early sLoad
+      else match f.genPre hasCtx with
+        | some m => .fail 500 m
+        | Option.none => .go
+
+def chatPreH (q : ReqShape) (hist : Bool) (f : Fault) : Pre :=
+  if q.empty && q.keepAlive0 then .early sUnload
+  else if q.noToolSupport then .fail 400 (q.full ++ sNoTools)
+  else match f with
+    | .load m => .fail (schedStatus q.cls) (schedMsg q.cls q.name m)
+    | _ =>
+      if q.empty then .early sLoad
+      else match f.chatPre hist with
+        | some m => .fail 500 m
+        | Option.none => .go
+
+/-- what a handler writes -/
+inductive Reply (α : Type) where
+  /-- one JSON body `{"error": msg}` with that status -/
+  | fail (status : Nat) (msg : Bytes)
+  /-- one JSON body, status 200 -/
+  | body (m : α)
+  /-- status 200, one NDJSON line per item -/
+  | stream (items : List (Item α))
+deriving DecidableEq, Repr
+
+def earlyInfo (reason : Bytes) : Info := ⟨true, true, reason, 0, 0⟩
+def earlyGen (reason : Bytes) : GenMsg := { resp := [], info := earlyInfo reason, ctx := none }
+def earlyChat (reason : Bytes) : ChatMsg := { content := [], calls := [], info := earlyInfo reason }
+
+def onceReply {α : Type} : Except Bytes α → Reply α
+  | .ok m => .body m
+  | .error m => .fail 500 m
+
+def streamReply {α : Type} : Except Bytes (List (Item α)) → Reply α
+  | .ok items => .stream items
+  | .error m => .fail 500 m
+
+/-- /api/generate, any request -/
+def generateR (v : Variant) (stream : Bool) (q : ReqShape) (f : Fault) (raw hasCtx : Bool) (pl : Nat)
+    (cs : List Chunk) (e : End) : Reply GenMsg :=
+  match genPreH q raw hasCtx f with
+  | .fail s m => .fail s m
+  | .early r => .body (earlyGen r)
+  | .go => if stream then streamReply (generateStreamH v f raw hasCtx pl cs e)
+           else onceReply (generateOnceH v f raw hasCtx pl cs e)
+
+/-- /api/chat, any request -/
+def chatR (v : Variant) (stream : Bool) (q : ReqShape) (f : Fault) (parse : Bytes → List Call) (tools hist : Bool)
+    (cs : List Chunk) (e : End) : Reply ChatMsg :=
+  match chatPreH q hist f with
+  | .fail s m => .fail s m
+  | .early r => .body (earlyChat r)
+  | .go => if stream then streamReply (chatStreamH v f parse tools hist cs e)
+           else onceReply (chatOnceH v f parse tools hist cs e)
+
+/-- the OpenAI writers on top of a native reply: HTTP status and events.  A single 200 body handed to a
+    writer in stream mode is treated like one stream line. -/
+def oaChatR (v : Variant) (stream usage : Bool) : Reply ChatMsg → Nat × List OaEv
+  | .fail s m => (s, [.error m])
+  | .body m => (200, if stream then oaChatStreamV v.oaErr usage [.msg m] else [oaChatOnce (.ok m)])
+  | .stream items => (200, oaChatStreamV v.oaErr usage items)
+
+def oaCmplR (v : Variant) (stream usage : Bool) : Reply GenMsg → Nat × List OaEv
+  | .fail s m => (s, [.error m])
+  | .body m => (200, if stream then oaCmplStreamV v.oaErr usage [.msg m] else [oaCmplOnce (.ok m)])
+  | .stream items => (200, oaCmplStreamV v.oaErr usage items)
+
+/-- what `api.Client` is handed, line by line -/
+def Reply.lines {α : Type} : Reply α → List (Item α)
+  | .fail _ m => [.err m]
+  | .body m => [.msg m]
+  | .stream items => items
+
 end OllamaVerif.Stream
